@@ -6,6 +6,7 @@ import (
 	"fmt"
 	"math"
 	"sort"
+	"strconv"
 	"strings"
 	"testing"
 	"time"
@@ -30,7 +31,7 @@ import (
 func init() {
 	Register(&Check{
 		ID: "C15", World: "E/stress-relief", Gen: genStress, Run: runStress,
-		OwnProbes: []string{"activated", "deactivated_after_hold", "held_on_by_min_duration", "peer_report_expired", "mode_reload", "cluster_level_above_own"},
+		OwnProbes: []string{"activated", "deactivated_after_hold", "held_on_by_min_duration", "peer_report_expired", "mode_reload", "cluster_level_above_own", "report_landed_inside_recalc"},
 		Real:      []string{"collect.StressRelief (Recalc loop, onStressLevelUpdate, UpdateFromConfig, clusterStressLevel)", "metrics.MultiMetrics"},
 		Stub:      []string{"pubsub (SimPubSub: peer reports are injected and delivered as scheduler steps)", "peers (MockPeers, instance id only)", "health (recorder double)", "config (MockConfig)", "clock (SimClock)"},
 	})
@@ -61,7 +62,16 @@ func genStress(r *Rng, tier string, p *Plan) {
 			// own readings: ratio in per-mille of capacity
 			p.Add(Op{K: "metric", At: now, S: PickOf(r, "in", "peer", "mem"), N: PickOf(r, int64(0), 10, 100, 250, 400, 560, 640, 810, 900, 1000, 1500)})
 		case 4, 5, 6:
-			p.Add(Op{K: "report", At: now, S: PickOf(r, "p1", "p2", "p3"), N: PickOf(r, int64(0), 1, 20, 50, 70, 80, 95, 100)})
+			switch r.Intn(8) {
+			case 0:
+				// the report lands in the middle of the next recalculation
+				p.Add(Op{K: "report_during_recalc", At: now, S: PickOf(r, "p1", "p2", "p3"), N: PickOf(r, int64(20), 50, 70, 80, 95, 100)})
+			case 1:
+				// a message that cannot be understood, naming a peer
+				p.Add(Op{K: "garbage", At: now, S: PickOf(r, "p1", "p2", "p3"), T: PickOf(r, "|", "|9x", "", "|1e3", "| 7", "|7|", "|0x10")})
+			default:
+				p.Add(Op{K: "report", At: now, S: PickOf(r, "p1", "p2", "p3"), N: PickOf(r, int64(0), 1, 20, 50, 70, 80, 95, 100)})
+			}
 		case 7:
 			p.Add(Op{K: "reload", At: now, S: "mode", T: PickOf(r, "monitor", "monitor", "always", "never")})
 		case 8:
@@ -97,8 +107,10 @@ func runStress(t *testing.T, p *Plan) *Outcome {
 		mm.Store(collect.DENOMINATOR_PEER_CAP, 1000)
 		mm.Store(collect.DENOMINATOR_MEMORY_MAX_ALLOC, 1000)
 		ep := bus.Endpoint("n0")
+		hclk := &hookClock{Clock: clk}
 		sr := &collect.StressRelief{RefineryMetrics: mm, Config: cfg, Logger: &logger.NullLogger{}, Health: nullRecorder{},
-			PubSub: ep, Peer: peer.NewMockPeers([]string{"n0"}, "n0"), Clock: clk, Done: make(chan struct{})}
+			PubSub: ep, Peer: peer.NewMockPeers([]string{"n0"}, "n0"), Clock: hclk, Done: make(chan struct{})}
+		var duringRecalc []string // messages to deliver inside the next recalculation
 		if err := sr.Start(); err != nil {
 			out.Harness = err.Error()
 			return
@@ -124,9 +136,11 @@ func runStress(t *testing.T, p *Plan) *Outcome {
 			if len(parts) != 2 || parts[0] == "n0" {
 				return
 			}
-			var lvl uint
-			fmt.Sscan(parts[1], &lvl)
-			reports[parts[0]] = peerRep{lvl, time.Now()}
+			lvl, err := strconv.Atoi(parts[1])
+			if err != nil || lvl < 0 {
+				return // a message that cannot be understood says nothing about the peer
+			}
+			reports[parts[0]] = peerRep{uint(lvl), time.Now()}
 		}
 		get := func(name string) float64 {
 			v, _ := mm.Get(name)
@@ -267,8 +281,28 @@ func runStress(t *testing.T, p *Plan) *Outcome {
 				minDurs = minDurs[len(minDurs)-1:]
 			}
 		}
+		drv.BeforeTick = func(tk *SimTicker) {
+			if !strings.Contains(tk.Key, "StressRelief") || len(duringRecalc) == 0 {
+				return
+			}
+			msgs := duringRecalc
+			duringRecalc = nil
+			// the recalculation reads the clock once before it looks at the reports
+			// it holds: the reports land there, each on its subscriber goroutine,
+			// and have been taken in (or wait for the lock) when the clock answers
+			hclk.hook = func() {
+				for _, m := range msgs {
+					ids, dones := bus.DeliverNow(strings.SplitN(m, "|", 2)[0], topic, m)
+					for i := range ids {
+						awaitGoroutine(ids[i], dones[i])
+					}
+				}
+				out.Probe("report_landed_inside_recalc")
+			}
+		}
 		drv.AfterTick = func(tk *SimTicker, delivered bool) {
 			if delivered && strings.Contains(tk.Key, "StressRelief") {
+				hclk.hook = nil
 				afterRecalc()
 			}
 		}
@@ -285,6 +319,11 @@ func runStress(t *testing.T, p *Plan) *Outcome {
 					mm.Gauge(name, float64(op.N))
 				case "report":
 					bus.Inject(op.S, topic, fmt.Sprintf("%s|%d", op.S, op.N))
+				case "report_during_recalc":
+					duringRecalc = append(duringRecalc, fmt.Sprintf("%s|%d", op.S, op.N))
+				case "garbage":
+					out.Fault("unparseable_stress_message")
+					bus.Inject(op.S, topic, op.S+op.T)
 				case "reload":
 					cfg.Mux.Lock()
 					switch op.S {
